@@ -544,5 +544,124 @@ theorem run_content (content : Position.Bytes) :
       rw [ih, hc, hmb, events_cons]
       simp
 
+/-! ### the front matter -/
+
+theorem emit_md {st st' : St} {i : Inline} {pos : LineRange} (h : emit st i pos = .ok st') :
+    st'.metadata = st.metadata := by
+  unfold emit at h
+  split at h
+  · split at h
+    · simp at h
+    · split at h
+      · simp at h
+      · simp only [Except.ok.injEq] at h
+        subst h
+        rfl
+  · simp only [Except.ok.injEq] at h
+    subst h
+    rfl
+
+theorem popBlock_md {st st' : St} (h : popBlock st = .ok st') : st'.metadata = st.metadata := by
+  unfold popBlock at h
+  split at h
+  · simp at h
+  · simp only [Except.ok.injEq] at h
+    subst h
+    rfl
+  · split at h
+    · split at h
+      · simp at h
+      · simp only [Except.ok.injEq] at h
+        subst h
+        rfl
+    · simp only [Except.ok.injEq] at h
+      subst h
+      rfl
+
+/-- what one event does to the stored front matter -/
+def nextMd (m : Bool) (acc : Option String) : Ev → Option String
+  | .text _ _ t => if m then some t else acc
+  | _ => acc
+
+theorem step_md (content : Position.Bytes) {st st' : St} (ev : Ev) (h : Reader.step content st ev = .ok st') :
+    st'.metadata = nextMd st.metaBlock st.metadata ev := by
+  have topped : ∀ (f : DBlock → Except Site DBlock),
+      (match top st with
+       | .error e => .error e
+       | .ok b => match f b with
+         | .error e => .error e
+         | .ok b' => .ok (setTop st b')) = Except.ok st' → st'.metadata = st.metadata := by
+    intro f hh
+    split at hh
+    · simp at hh
+    · split at hh
+      · simp at hh
+      · simp only [Except.ok.injEq] at hh
+        subst hh
+        rfl
+  cases ev with
+  | startPara s e | startHeading s e l | startQuote s e | startCode s e lang | startTable s e al | startList o
+  | startHtml | endHtml | endItem | ignored | startMeta | endMeta | startInline k s e =>
+    simp only [Reader.step, Except.ok.injEq] at h; subst h; rfl
+  | endPara | endHeading | endQuote | endCode | endTable | endList =>
+    simp only [Reader.step] at h; exact popBlock_md h
+  | rule s e =>
+    simp only [Reader.step] at h
+    have := popBlock_md h
+    simpa [pushBlock, nextMd] using this
+  | endInline =>
+    simp only [Reader.step, popInline] at h
+    split at h
+    · simp at h
+    · have := emit_md h
+      simpa [nextMd] using this
+  | code s e t | math s e t | inlineHtml s e t =>
+    simp only [Reader.step] at h; exact emit_md h
+  | startItem => simp only [Reader.step] at h; exact topped appendItem h
+  | startRow => simp only [Reader.step] at h; exact topped appendRow h
+  | startCell => simp only [Reader.step] at h; exact topped appendCell h
+  | text s e t =>
+    simp only [Reader.step] at h
+    split at h
+    · rename_i hm
+      simp only [Except.ok.injEq] at h; subst h
+      simp [nextMd, hm]
+    · rename_i hm
+      have hmf : st.metaBlock = false := by simpa using hm
+      split at h
+      · simp at h
+      · simp only [Except.ok.injEq] at h; subst h
+        simp [nextMd, hmf, setTop]
+      · simp [nextMd, hmf, emit_md h]
+
+theorem metaText_cons (m : Bool) (acc : Option String) (ev : Ev) (evs : List Ev) :
+    Flat.metaText m acc (ev :: evs) = Flat.metaText (nextMeta m ev) (nextMd m acc ev) evs := by
+  cases ev <;> cases m <;> simp [Flat.metaText, nextMeta, nextMd]
+
+theorem run_md (content : Position.Bytes) :
+    ∀ (evs : List Ev) {fs fs' : List Frame} {st st' : St}, Rel fs st → Events.run fs evs = some fs' →
+      Flat.htmlTextFree fs evs = true → Reader.run content st evs = .ok st' →
+      st'.metadata = Flat.metaText st.metaBlock st.metadata evs
+  | [], _, _, st, st', _, _, _, h => by
+    simp only [Reader.run, Except.ok.injEq] at h
+    subst h
+    simp [Flat.metaText]
+  | ev :: evs, fs, fs', st, st', hrel, hrun, hfree, h => by
+    simp only [Events.run] at hrun
+    split at hrun
+    · simp at hrun
+    · rename_i fs1 h1
+      obtain ⟨st1, hs1, hrel1⟩ := step_pres content ev hrel h1
+      simp only [Reader.run, hs1] at h
+      simp only [Flat.htmlTextFree, h1, Bool.and_eq_true] at hfree
+      have hf : ∀ s e t r, ev = .text s e t → fs ≠ .html :: r := by
+        intro s e t r hev hfs
+        subst hev hfs
+        simp at hfree
+      obtain ⟨_, hmb⟩ := step_content content ev hrel h1 hf hs1
+      have hmd := step_md content ev hs1
+      have ih := run_md content evs hrel1 hrun hfree.2 h
+      rw [ih, hmb, hmd, metaText_cons]
+
 end ReaderContent
 end Iwe
